@@ -5,6 +5,7 @@ package formats
 
 // line sniffers (package-level list sniffFormats): each may use the scratch state
 //@ interface sniffFormat.sniff(s sniffFormat, data []byte)
+//@   holds stateMtx
 //@   assigns global(state), (state)[*]
 
 //@ func Sniffer.SniffReader
@@ -22,9 +23,29 @@ package formats
 
 //@ func spdxSniff.sniff
 //@   props C04
+//@   holds stateMtx
 //@   requires state != nil
 //@   assigns global(state), (state)[*]
 
 //@ func cdxSniff.sniff
 //@   props C04
 //@   assigns \nothing
+
+//@ global sniffFormats immutable-after-init
+//@ global List immutable-after-init
+//@ global ListFormats immutable-after-init
+//@ global state guarded_by stateMtx
+//@ global stateMtx trusted-concurrent
+//@ package-props C17
+
+//@ func cdxSniff.sniff
+//@   holds stateMtx
+//@ func Sniffer.sniff
+//@   holds stateMtx
+//@   requires forall i int :: 0 <= i && i < len(sniffFormats) ==> sniffFormats[i] != nil
+//@ func initSniffState
+//@   holds stateMtx
+//@ func getSniffState
+//@   holds stateMtx
+//@ func setSniffState
+//@   holds stateMtx
